@@ -517,3 +517,393 @@ Qed.
 Lemma scratch_inv_reachable dbg b0 b1 cap ops :
   run_disc dbg (sinit b0 b1 cap) ops -> SInv (srun dbg (sinit b0 b1 cap) ops).
 Proof. intros. apply srun_inv; [apply sinit_inv|assumption]. Qed.
+
+(* ---------- non-interference ---------- *)
+
+(* blocks of arena (bo_arena h) that were allocated before borrow h was taken *)
+Definition protected (st : sst) (h : borrow) (x : blk) : Prop :=
+  In x (c_live (sel (bo_arena h) st)) /\ b_id x < bo_next h.
+
+Definition same_bytes (st st' : sst) (a : bool) (x : blk) : Prop :=
+  forall i, 0 <= i < b_len x ->
+    s_m (c_s (sel a st')) (b_off x + i) = s_m (c_s (sel a st)) (b_off x + i).
+
+(* One step — a client operation through ANY live borrow, taking a borrow, dropping the
+   newest borrow (possibly h itself) — leaves every block protected by a live borrow h in
+   the ledger with the same (offset, length) and the same bytes. *)
+Lemma sstep_protected dbg st o h x :
+  SInv st -> sop_ok o -> disc st o -> In h (ss_bors st) -> protected st h x ->
+  protected (fst (sstep dbg st o)) h x /\ same_bytes st (fst (sstep dbg st o)) (bo_arena h) x.
+Proof.
+  intros HS Hop Hd Hh [Hx Hid]. pose proof HS as (H0 & H1 & Hb & Hs).
+  unfold protected, same_bytes.
+  destruct o as [c| |a o|].
+  - cbn [sstep fst]. rewrite sel_rebuild. auto.
+  - cbn [sstep]. destruct (ss_bors st) as [|b rest] eqn:Eb; cbn [fst]; [destruct Hh|].
+    rewrite sel_rebuild, sel_cases.
+    destruct (Bool.eqb (bo_arena h) (bo_arena b)) eqn:E; [|auto].
+    apply Bool.eqb_prop in E.
+    (* h is b or older than b on the same arena: its mark/threshold are dominated by b's *)
+    assert (Hdom : bo_mark h <= bo_mark b /\ bo_next h <= bo_next b).
+    { destruct Hh as [->|Hin]; [lia|]. cbn [bors_sorted] in Hs. destruct Hs as [Hf _].
+      rewrite Forall_forall in Hf. apply Hf; assumption. }
+    inversion Hb as [|? ? Hbb _]; subst.
+    destruct Hbb as (_ & _ & Hside). rewrite Forall_forall in Hside.
+    rewrite E in Hx. pose proof (side_false b x ltac:(lia) (Hside x Hx)) as Hend.
+    rewrite <- E. split.
+    + split; [|assumption]. rewrite drop_arena_eq; cbn [c_live]. unfold keep_below.
+      apply filter_In. split; [rewrite E; assumption|]. apply Z.leb_le. lia.
+    + intros i Hi. rewrite E. apply drop_arena_mem. lia.
+  - cbn [disc] in Hd. destruct (top_of a (ss_bors st)) as [t|] eqn:Et.
+    + destruct (disc_cli_not_borrow _ _ _ Hd) as [Hn1 Hn2].
+      rewrite (sstep_cli_eq dbg st a o t Et Hn1 Hn2). cbn [fst]. rewrite sel_cases.
+      destruct (Bool.eqb (bo_arena h) a) eqn:E; [|auto].
+      apply Bool.eqb_prop in E.
+      destruct (top_of_In _ _ _ Et) as [Htin Hta].
+      destruct (top_dominates a _ t Hs Et h Hh E) as [Hm Hn].
+      pose proof (sop_ok_cli _ _ Hop) as Hop'.
+      pose proof (SInv_sel a st HS) as HIa.
+      assert (Hbt : bor_ok (sel a st) t).
+      { rewrite Forall_forall in Hb. specialize (Hb t Htin). rewrite Hta in Hb. exact Hb. }
+      rewrite E in Hx. split.
+      * split; [|assumption]. apply (cstep_outer_kept dbg (sel a st) t o x); try assumption. lia.
+      * rewrite E. intros i Hi. apply (cstep_outer_contents dbg (sel a st) t o x); try assumption. lia.
+    + rewrite sstep_cli_none by assumption. auto.
+  - cbn [disc] in Hd. rewrite Hd in Hh. destruct Hh.
+Qed.
+
+(* An operation acts on one arena only. *)
+Lemma sstep_other_arena dbg st o :
+  match o with
+  | SCli a _ => sel (negb a) (fst (sstep dbg st o)) = sel (negb a) st
+  | SDrop => match ss_bors st with
+             | b :: _ => sel (negb (bo_arena b)) (fst (sstep dbg st o)) = sel (negb (bo_arena b)) st
+             | [] => fst (sstep dbg st o) = st
+             end
+  | SBorrow _ => forall a, sel a (fst (sstep dbg st o)) = sel a st
+  | SInit => True
+  end.
+Proof.
+  destruct o as [c| |a o|]; cbn [sstep].
+  - intros a. cbn [fst]. apply sel_rebuild.
+  - destruct (ss_bors st) as [|b rest]; cbn [fst]; [reflexivity|].
+    rewrite sel_rebuild. apply sel_upd_other.
+  - destruct (top_of a (ss_bors st)); [|reflexivity].
+    destruct o; try reflexivity; destruct (cstep dbg (sel a st) _); cbn [fst]; apply sel_upd_other.
+  - exact I.
+Qed.
+
+(* blocks of an outer borrow and blocks allocated under it never overlap: they are
+   separated by the saved offset *)
+Lemma inner_outer_disjoint st h x y :
+  SInv st -> In h (ss_bors st) ->
+  In x (c_live (sel (bo_arena h) st)) -> In y (c_live (sel (bo_arena h) st)) ->
+  b_id x < bo_next h -> bo_next h <= b_id y ->
+  b_off x + b_len x <= bo_mark h /\ bo_mark h <= b_off y.
+Proof.
+  intros (_ & _ & Hb & _) Hh Hx Hy Hix Hiy.
+  rewrite Forall_forall in Hb. destruct (Hb h Hh) as (_ & _ & Hs). rewrite Forall_forall in Hs.
+  split; [apply side_false; auto|apply side_true; auto].
+Qed.
+
+(* all live blocks of one arena are pairwise disjoint, whoever allocated them (C11) *)
+Lemma scratch_blocks_disjoint st a x y :
+  SInv st -> In x (c_live (sel a st)) -> In y (c_live (sel a st)) -> b_id x <> b_id y -> disj x y.
+Proof. intros HS. apply inv_blocks_disjoint. apply SInv_sel. assumption. Qed.
+
+(* ---------- LIFO scopes ---------- *)
+
+Fixpoint depth_after (d : nat) (ops : list sop) : option nat :=
+  match ops with
+  | [] => Some d
+  | SBorrow _ :: r => depth_after (S d) r
+  | SDrop :: r => match d with O => None | S d' => depth_after d' r end
+  | _ :: r => depth_after d r
+  end.
+
+(* every borrow taken in the segment is dropped in it, and the segment never drops a
+   borrow it did not take *)
+Definition balanced (ops : list sop) : Prop := depth_after 0 ops = Some O.
+
+Lemma bors_sstep_cli dbg st a o : ss_bors (fst (sstep dbg st (SCli a o))) = ss_bors st.
+Proof.
+  cbn [sstep]. destruct (top_of a (ss_bors st)); [|reflexivity].
+  destruct o; try reflexivity; destruct (cstep dbg (sel a st) _); cbn [fst]; apply bors_upd.
+Qed.
+
+Lemma srun_bors dbg ops : forall st pre base d d',
+  ss_bors st = pre ++ base -> length pre = d -> depth_after d ops = Some d' ->
+  exists pre', length pre' = d' /\ ss_bors (srun dbg st ops) = pre' ++ base.
+Proof.
+  induction ops as [|o ops IH]; intros st pre base d d' Hb Hl Hd; cbn [srun fold_left depth_after] in *.
+  - inversion Hd; subst. eauto.
+  - destruct o as [c| |a o|].
+    + eapply (IH _ (_ :: pre) base (S d) d'); [|cbn [length]; lia|exact Hd].
+      cbn [sstep fst ss_bors]. rewrite Hb. reflexivity.
+    + destruct d as [|d0]; [discriminate|]. destruct pre as [|b pre0]; [discriminate|].
+      eapply (IH _ pre0 base d0 d'); [|cbn [length] in Hl; lia|exact Hd].
+      cbn [sstep]. rewrite Hb. cbn [app fst ss_bors]. reflexivity.
+    + eapply (IH _ pre base d d'); [|assumption|exact Hd]. rewrite bors_sstep_cli. assumption.
+    + eapply (IH _ pre base d d'); [|assumption|exact Hd]. cbn [sstep fst reinit ss_bors]. assumption.
+Qed.
+
+(* Everything protected by a borrow that stays live during a segment survives the segment. *)
+Lemma srun_protected dbg ops : forall st pre h base d d' x,
+  SInv st -> run_disc dbg st ops ->
+  ss_bors st = pre ++ h :: base -> length pre = d -> depth_after d ops = Some d' ->
+  protected st h x ->
+  protected (srun dbg st ops) h x /\ same_bytes st (srun dbg st ops) (bo_arena h) x.
+Proof.
+  induction ops as [|o ops IH]; intros st pre h base d d' x HS Hr Hb Hl Hd Hp; cbn [srun fold_left].
+  - split; [assumption|]. intros i Hi. reflexivity.
+  - cbn [run_disc] in Hr. destruct Hr as (Hop & Hdi & Hr).
+    assert (Hh : In h (ss_bors st)) by (rewrite Hb; apply in_or_app; right; left; reflexivity).
+    destruct (sstep_protected dbg st o h x HS Hop Hdi Hh Hp) as [Hp1 Hb1].
+    pose proof (sstep_inv dbg st o HS Hop Hdi) as HS1.
+    assert (Hnext : exists pre1 d1, ss_bors (fst (sstep dbg st o)) = pre1 ++ h :: base /\ length pre1 = d1 /\
+                                   depth_after d1 ops = Some d').
+    { cbn [depth_after] in Hd. destruct o as [c| |a o|].
+      - exists (mkBor (choose c) (aoff (sel (choose c) st)) (c_next (sel (choose c) st)) :: pre), (S d).
+        cbn [sstep fst ss_bors]. rewrite Hb. cbn [length]. auto.
+      - destruct d as [|d0]; [discriminate|]. destruct pre as [|b pre0]; [discriminate|].
+        exists pre0, d0. cbn [sstep]. rewrite Hb. cbn [app fst ss_bors]. cbn [length] in Hl. split; [reflexivity|]. split; [lia|assumption].
+      - exists pre, d. rewrite bors_sstep_cli. auto.
+      - exists pre, d. cbn [sstep fst reinit ss_bors]. auto. }
+    destruct Hnext as (pre1 & d1 & Hb' & Hl' & Hd').
+    destruct (IH _ pre1 h base d1 d' x HS1 Hr Hb' Hl' Hd' Hp1) as [Hp2 Hb2].
+    split; [assumption|]. intros i Hi. rewrite Hb2 by assumption. apply Hb1. assumption.
+Qed.
+
+Lemma run_disc_app dbg l1 l2 : forall st,
+  run_disc dbg st (l1 ++ l2) <-> run_disc dbg st l1 /\ run_disc dbg (srun dbg st l1) l2.
+Proof.
+  induction l1 as [|o l1 IH]; intros st; cbn [app run_disc srun fold_left].
+  - tauto.
+  - rewrite IH. tauto.
+Qed.
+
+(* A whole scope: borrow, a balanced disciplined body, drop.  The borrowed arena's offset
+   is back where it was, the borrow stack is what it was, and every block that was live in
+   that arena before the borrow is still live, at the same place, with the same bytes. *)
+Lemma borrow_scope_frame dbg st c body :
+  SInv st -> balanced body ->
+  run_disc dbg st (SBorrow c :: body ++ [SDrop]) ->
+  let a := choose c in
+  let st' := srun dbg st (SBorrow c :: body ++ [SDrop]) in
+  aoff (sel a st') = aoff (sel a st) /\ ss_bors st' = ss_bors st /\
+  forall x, In x (c_live (sel a st)) -> In x (c_live (sel a st')) /\ same_bytes st st' a x.
+Proof.
+  intros HS Hbal Hr a st'.
+  set (h := mkBor a (aoff (sel a st)) (c_next (sel a st))).
+  set (st1 := fst (sstep dbg st (SBorrow c))).
+  assert (Hb1 : ss_bors st1 = [] ++ h :: ss_bors st) by reflexivity.
+  cbn [run_disc] in Hr. destruct Hr as (Hop0 & Hd0 & Hr). fold st1 in Hr.
+  pose proof (sstep_inv dbg st (SBorrow c) HS Hop0 Hd0) as HS1. fold st1 in HS1.
+  assert (Hdep : depth_after 0 (body ++ [SDrop]) = None \/ True) by (right; exact I). clear Hdep.
+  (* split the run at the final drop *)
+  assert (Hsplit : st' = fst (sstep dbg (srun dbg st1 body) SDrop)).
+  { subst st'. cbn [srun fold_left]. fold st1. unfold srun. rewrite fold_left_app. reflexivity. }
+  pose proof (proj1 (run_disc_app dbg body [SDrop] st1) Hr) as Hrbody.
+  destruct Hrbody as [Hrb Hrd].
+  set (st2 := srun dbg st1 body) in *.
+  destruct (srun_bors dbg body st1 [] (h :: ss_bors st) 0%nat 0%nat Hb1 eq_refl Hbal) as (pre' & Hl' & Hb2).
+  destruct pre' as [|? ?]; [|discriminate]. cbn [app] in Hb2. fold st2 in Hb2.
+  pose proof (srun_inv dbg body st1 HS1 Hrb) as HS2. fold st2 in HS2.
+  assert (Hst' : st' = mkSst (ss0 (upd a st2 (drop_arena dbg (sel a st2) (aoff (sel a st)))))
+                             (ss1 (upd a st2 (drop_arena dbg (sel a st2) (aoff (sel a st))))) (ss_bors st)).
+  { rewrite Hsplit. cbn [sstep]. rewrite Hb2. reflexivity. }
+  refine (conj _ (conj _ _)).
+  - rewrite Hst', sel_rebuild, sel_upd_same. apply drop_arena_off.
+  - rewrite Hst'. reflexivity.
+  - intros x Hx.
+    assert (Hp : protected st1 h x).
+    { unfold protected. cbn [bo_arena bo_next h]. subst st1. cbn [sstep fst]. rewrite sel_rebuild. split; [assumption|].
+      pose proof (SInv_sel a st HS) as (_ & _ & _ & _ & Hid & _). rewrite Forall_forall in Hid. apply Hid. assumption. }
+    destruct (srun_protected dbg body st1 [] h (ss_bors st) 0%nat 0%nat x HS1 Hrb Hb1 eq_refl Hbal Hp) as [Hp2 Hby2].
+    fold st2 in Hp2, Hby2.
+    cbn [run_disc] in Hrd. destruct Hrd as (Hop3 & Hd3 & _).
+    assert (Hh2 : In h (ss_bors st2)) by (rewrite Hb2; left; reflexivity).
+    destruct (sstep_protected dbg st2 SDrop h x HS2 Hop3 Hd3 Hh2 Hp2) as [Hp3 Hby3].
+    rewrite <- Hsplit in Hp3, Hby3. cbn [bo_arena h] in *.
+    split; [apply Hp3|].
+    intros i Hi. rewrite Hby3 by assumption. rewrite Hby2 by assumption.
+    subst st1. cbn [sstep fst]. rewrite sel_rebuild. reflexivity.
+Qed.
+
+(* ---------- addresses do not depend on commit, contents or debug poisoning ---------- *)
+
+Lemma abeg_eq a a' al : a_base a = a_base a' -> a_off a = a_off a' -> abeg a al = abeg a' al.
+Proof. unfold abeg. intros -> ->. reflexivity. Qed.
+
+Lemma alloc_raw_sim dbg dbg' s s' bytes al :
+  arena_ok (s_a s) -> arena_ok (s_a s') ->
+  a_base (s_a s) = a_base (s_a s') -> a_off (s_a s) = a_off (s_a s') -> a_cap (s_a s) = a_cap (s_a s') ->
+  0 <= bytes -> pow2 al ->
+  match alloc_raw dbg s bytes al, alloc_raw dbg' s' bytes al with
+  | Some (b, l, t), Some (b', l', t') => b = b' /\ l = l' /\ a_off (s_a t) = a_off (s_a t')
+  | None, None => True
+  | _, _ => False
+  end.
+Proof.
+  intros Ha Ha' Hb Ho Hc Hby Hal.
+  pose proof (abeg_eq _ _ al Hb Ho) as Hab.
+  destruct (alloc_raw dbg s bytes al) as [[[b l] t]|] eqn:E; destruct (alloc_raw dbg' s' bytes al) as [[[b' l'] t']|] eqn:E'.
+  - destruct (alloc_raw_some _ _ _ _ _ _ _ Ha Hby Hal E) as (-> & -> & _ & _ & _ & _ & Hoff & _).
+    destruct (alloc_raw_some _ _ _ _ _ _ _ Ha' Hby Hal E') as (-> & -> & _ & _ & _ & _ & Hoff' & _).
+    rewrite Hoff, Hoff', Hab. auto.
+  - pose proof (alloc_raw_none _ _ _ _ Hal E') as Hn.
+    destruct (alloc_raw_some _ _ _ _ _ _ _ Ha Hby Hal E) as (_ & Hbeg & _ & _ & _ & _ & Hoff & (Q0 & Q1 & Q2 & Q3 & Q4) & Hcap & _).
+    subst b. rewrite <- Hab in Hn. assert (Hle : abeg (s_a s) al + bytes <= a_com (s_a t)) by lia.
+    pose proof (rup_least _ _ chunk chunk_pos Hle Q3). lia.
+  - pose proof (alloc_raw_none _ _ _ _ Hal E) as Hn.
+    destruct (alloc_raw_some _ _ _ _ _ _ _ Ha' Hby Hal E') as (_ & Hbeg & _ & _ & _ & _ & Hoff & (Q0 & Q1 & Q2 & Q3 & Q4) & Hcap & _).
+    subst b'. rewrite Hab in Hn. assert (Hle : abeg (s_a s') al + bytes <= a_com (s_a t')) by lia.
+    pose proof (rup_least _ _ chunk chunk_pos Hle Q3). lia.
+  - exact I.
+Qed.
+
+Lemma grow_sim dbg dbg' s s' ptr old new al :
+  arena_ok (s_a s) -> arena_ok (s_a s') ->
+  a_base (s_a s) = a_base (s_a s') -> a_off (s_a s) = a_off (s_a s') -> a_cap (s_a s) = a_cap (s_a s') ->
+  0 <= old <= new -> pow2 al ->
+  match grow dbg s ptr old new al, grow dbg' s' ptr old new al with
+  | Some (b, l, t), Some (b', l', t') => b = b' /\ l = l' /\ a_off (s_a t) = a_off (s_a t')
+  | None, None => True
+  | _, _ => False
+  end.
+Proof.
+  intros Ha Ha' Hb Ho Hc Hsz Hal. unfold grow. rewrite <- Ho.
+  destruct (ptr + old =? a_off (s_a s)).
+  - assert (Hp1 : pow2 1) by (exists 0; split; [lia|reflexivity]).
+    pose proof (alloc_raw_sim dbg dbg' s s' (new - old) 1 Ha Ha' Hb Ho Hc ltac:(lia) Hp1) as H.
+    destruct (alloc_raw dbg s (new - old) 1) as [[[b l] t]|]; destruct (alloc_raw dbg' s' (new - old) 1) as [[[b' l'] t']|]; try exact H.
+    destruct H as (_ & _ & H). auto.
+  - pose proof (alloc_raw_sim dbg dbg' s s' new al Ha Ha' Hb Ho Hc ltac:(lia) Hal) as H.
+    destruct (alloc_raw dbg s new al) as [[[b l] t]|]; destruct (alloc_raw dbg' s' new al) as [[[b' l'] t']|]; try exact H.
+    cbn [s_a]. destruct H as (-> & _ & H). auto.
+Qed.
+
+Lemma grow_base_cap dbg s ptr old new al np len s' :
+  grow dbg s ptr old new al = Some (np, len, s') ->
+  a_base (s_a s') = a_base (s_a s) /\ a_cap (s_a s') = a_cap (s_a s).
+Proof.
+  unfold grow. destruct (_ =? _).
+  - destruct (alloc_raw dbg s (new - old) 1) as [[[b l] t]|] eqn:E; [|discriminate].
+    intros H; inversion H; subst. eapply alloc_raw_base_cap; eassumption.
+  - destruct (alloc_raw dbg s new al) as [[[b l] t]|] eqn:E; [|discriminate].
+    intros H; inversion H; subst. cbn [s_a]. eapply alloc_raw_base_cap; eassumption.
+Qed.
+
+Lemma cstep_base_cap dbg c o :
+  a_base (s_a (c_s (fst (cstep dbg c o)))) = a_base (s_a (c_s c)) /\
+  a_cap (s_a (c_s (fst (cstep dbg c o)))) = a_cap (s_a (c_s c)).
+Proof.
+  destruct o as [bytes k|bytes k|idx delta z|idx d|t|idx| |idx seed| |]; cbn [cstep].
+  - destruct (alloc_raw dbg (c_s c) bytes (2 ^ Z.of_nat k)) as [[[beg len] s']|] eqn:E; cbn [fst c_s]; [|auto].
+    eapply alloc_raw_base_cap; eassumption.
+  - unfold alloc_zeroed.
+    destruct (alloc_raw dbg (c_s c) bytes (2 ^ Z.of_nat k)) as [[[beg len] s']|] eqn:E; cbn [fst c_s s_a]; [|auto].
+    eapply alloc_raw_base_cap; eassumption.
+  - destruct (pick (c_live c) idx) as [g|]; cbn [fst]; [|auto].
+    destruct z.
+    + rewrite grow_zeroed_unfold.
+      destruct (grow dbg (c_s c) (b_off g) (b_len g) (b_len g + delta) (b_al g)) as [[[np len] s']|] eqn:E; cbn [fst c_s s_a]; [|auto].
+      eapply grow_base_cap; eassumption.
+    + destruct (grow dbg (c_s c) (b_off g) (b_len g) (b_len g + delta) (b_al g)) as [[[np len] s']|] eqn:E; cbn [fst c_s s_a]; [|auto].
+      eapply grow_base_cap; eassumption.
+  - destruct (pick (c_live c) idx) as [g|]; cbn [fst]; [|auto].
+    destruct (b_off g + b_len g =? a_off (s_a (c_s c))) eqn:Et; cbn [fst]; [|auto].
+    unfold shrink. rewrite Et. cbn [fst c_s s_a a_base a_cap]. auto.
+  - cbn [fst]. unfold do_reset; cbn [c_s]. rewrite reset_arena. auto.
+  - destruct (pick (c_live c) idx) as [g|]; cbn [fst]; [|auto].
+    unfold do_reset; cbn [c_s]. rewrite reset_arena. auto.
+  - cbn [fst c_s]. rewrite decommit_base, decommit_cap. auto.
+  - destruct (pick (c_live c) idx) as [g|]; cbn [fst c_s s_a]; auto.
+  - cbn [fst c_s]. auto.
+  - destruct (c_marks c) as [|mk rest]; cbn [fst c_s]; [auto|].
+    rewrite decommit_base, decommit_cap. unfold do_reset; cbn [c_s]. rewrite reset_arena. auto.
+Qed.
+
+(* Two client states that agree on base, offset, capacity and ledger — but possibly not on
+   the committed size, the memory contents or the build profile. *)
+Definition asim (c c' : cst) : Prop :=
+  Inv c /\ Inv c' /\
+  a_base (s_a (c_s c)) = a_base (s_a (c_s c')) /\ a_off (s_a (c_s c)) = a_off (s_a (c_s c')) /\
+  a_cap (s_a (c_s c)) = a_cap (s_a (c_s c')) /\
+  c_live c = c_live c' /\ c_next c = c_next c' /\ c_marks c = c_marks c'.
+
+Definition absst (c : cst) := (a_off (s_a (c_s c)), c_live c, c_next c, c_marks c).
+
+Lemma asim_of_abs c c' d d' :
+  Inv d -> Inv d' ->
+  a_base (s_a (c_s c)) = a_base (s_a (c_s c')) -> a_cap (s_a (c_s c)) = a_cap (s_a (c_s c')) ->
+  a_base (s_a (c_s d)) = a_base (s_a (c_s c)) -> a_cap (s_a (c_s d)) = a_cap (s_a (c_s c)) ->
+  a_base (s_a (c_s d')) = a_base (s_a (c_s c')) -> a_cap (s_a (c_s d')) = a_cap (s_a (c_s c')) ->
+  absst d = absst d' -> asim d d'.
+Proof.
+  intros HI HI' Hb Hc Hb1 Hc1 Hb2 Hc2 Habs. unfold absst in Habs. inversion Habs.
+  unfold asim. refine (conj HI (conj HI' (conj _ (conj H0 (conj _ (conj H1 (conj H2 H3))))))); congruence.
+Qed.
+
+Lemma cstep_abs_sim dbg dbg' c c' o :
+  asim c c' -> op_ok o ->
+  absst (fst (cstep dbg c o)) = absst (fst (cstep dbg' c' o)) /\
+  snd (cstep dbg c o) = snd (cstep dbg' c' o).
+Proof.
+  intros (HI & HI' & Hb & Ho & Hc & Hl & Hn & Hm) Hop.
+  pose proof HI as (Ha & Hlk & _). pose proof HI' as (Ha' & _).
+  unfold absst.
+  destruct o as [bytes k|bytes k|idx delta z|idx d|t|idx| |idx seed| |]; cbn [cstep op_ok] in *.
+  - assert (Hal : pow2 (2 ^ Z.of_nat k)) by (exists (Z.of_nat k); split; lia).
+    pose proof (alloc_raw_sim dbg dbg' (c_s c) (c_s c') bytes _ Ha Ha' Hb Ho Hc Hop Hal) as H.
+    destruct (alloc_raw dbg (c_s c) bytes (2 ^ Z.of_nat k)) as [[[b l] t]|];
+      destruct (alloc_raw dbg' (c_s c') bytes (2 ^ Z.of_nat k)) as [[[b' l'] t']|]; try contradiction; cbn [fst snd c_s c_live c_next c_marks].
+    + destruct H as (-> & -> & ->). rewrite Hl, Hn, Hm. auto.
+    + rewrite Ho, Hl, Hn, Hm. auto.
+  - assert (Hal : pow2 (2 ^ Z.of_nat k)) by (exists (Z.of_nat k); split; lia).
+    pose proof (alloc_raw_sim dbg dbg' (c_s c) (c_s c') bytes _ Ha Ha' Hb Ho Hc Hop Hal) as H.
+    unfold alloc_zeroed.
+    destruct (alloc_raw dbg (c_s c) bytes (2 ^ Z.of_nat k)) as [[[b l] t]|];
+      destruct (alloc_raw dbg' (c_s c') bytes (2 ^ Z.of_nat k)) as [[[b' l'] t']|]; try contradiction; cbn [fst snd c_s c_live c_next c_marks s_a].
+    + destruct H as (-> & -> & ->). rewrite Hl, Hn, Hm. auto.
+    + rewrite Ho, Hl, Hn, Hm. auto.
+  - rewrite <- Hl. destruct (pick (c_live c) idx) as [g|] eqn:Ep; cbn [fst snd]; [|rewrite Ho, Hl, Hn, Hm; auto].
+    pose proof (pick_In _ _ _ Ep) as Hgin. rewrite Forall_forall in Hlk.
+    destruct (Hlk g Hgin) as (Hg0 & Hg1 & Hg2 & Hg3 & _).
+    pose proof (grow_sim dbg dbg' (c_s c) (c_s c') (b_off g) (b_len g) (b_len g + delta) (b_al g) Ha Ha' Hb Ho Hc ltac:(lia) Hg3) as H.
+    destruct z.
+    + rewrite !grow_zeroed_unfold.
+      destruct (grow dbg (c_s c) _ _ _ _) as [[[b l] t]|]; destruct (grow dbg' (c_s c') _ _ _ _) as [[[b' l'] t']|];
+        try contradiction; cbn [fst snd c_s c_live c_next c_marks s_a].
+      * destruct H as (-> & -> & ->). rewrite ?Hl, Hn, Hm. auto.
+      * rewrite Ho, ?Hl, Hn, Hm. auto.
+    + destruct (grow dbg (c_s c) _ _ _ _) as [[[b l] t]|]; destruct (grow dbg' (c_s c') _ _ _ _) as [[[b' l'] t']|];
+        try contradiction; cbn [fst snd c_s c_live c_next c_marks s_a].
+      * destruct H as (-> & -> & ->). rewrite ?Hl, Hn, Hm. auto.
+      * rewrite Ho, ?Hl, Hn, Hm. auto.
+  - rewrite <- Hl. destruct (pick (c_live c) idx) as [g|] eqn:Ep; cbn [fst snd]; [|rewrite Ho, Hl, Hn, Hm; auto].
+    rewrite <- Ho. destruct (b_off g + b_len g =? a_off (s_a (c_s c))) eqn:Et; cbn [fst snd]; [|rewrite Ho, Hl, Hn, Hm; auto].
+    unfold shrink. rewrite <- Ho, Et. cbn [fst snd c_s c_live c_next c_marks s_a a_off]. rewrite ?Hl, ?Hn, ?Hm. auto.
+  - cbn [fst snd]. unfold do_reset; cbn [c_s c_live c_next c_marks]. rewrite !reset_arena. cbn [a_off].
+    rewrite Ho, Hl, Hn, Hm. auto.
+  - rewrite <- Hl. destruct (pick (c_live c) idx) as [g|] eqn:Ep; cbn [fst snd]; [|rewrite Ho, Hl, Hn, Hm; auto].
+    unfold do_reset; cbn [c_s c_live c_next c_marks]. rewrite !reset_arena. cbn [a_off]. rewrite ?Hl, ?Hn, ?Hm. auto.
+  - cbn [fst snd c_s c_live c_next c_marks]. rewrite !decommit_off, Ho, Hl, Hn, Hm. auto.
+  - rewrite <- Hl. destruct (pick (c_live c) idx) as [g|] eqn:Ep; cbn [fst snd c_s c_live c_next c_marks s_a];
+      rewrite Ho, ?Hl, Hn, Hm; auto.
+  - cbn [fst snd c_s c_live c_next c_marks]. rewrite Ho, Hl, Hn, Hm. auto.
+  - rewrite <- Hm. destruct (c_marks c) as [|mk rest]; cbn [fst snd]; [rewrite Ho, Hl, Hn; auto|].
+    cbn [c_s c_live c_next c_marks]. rewrite !decommit_off. unfold do_reset; cbn [c_s c_live c_next c_marks].
+    rewrite !reset_arena. cbn [a_off]. rewrite ?Hl, ?Hn. auto.
+Qed.
+
+Lemma cstep_sim dbg dbg' c c' o :
+  asim c c' -> op_ok o ->
+  asim (fst (cstep dbg c o)) (fst (cstep dbg' c' o)) /\ snd (cstep dbg c o) = snd (cstep dbg' c' o).
+Proof.
+  intros Hs Hop. destruct (cstep_abs_sim dbg dbg' c c' o Hs Hop) as [Habs Hres].
+  split; [|assumption].
+  destruct Hs as (HI & HI' & Hb & Ho & Hc & _).
+  destruct (cstep_base_cap dbg c o) as [B1 C1]. destruct (cstep_base_cap dbg' c' o) as [B2 C2].
+  eapply (asim_of_abs c c'); try eassumption; apply cstep_inv; assumption.
+Qed.
